@@ -140,7 +140,7 @@ class MapToMolecule(Processor):
         # this will falsely also connect two molecules with the
         # same molecule name, if they are from_itp and consecutively
         # we deal with that below
-        for idx, jdx in nx.dfs_edges(meta_molecule):
+        for idx, jdx in meta_molecule.edges:
             if idx in restart_attr and jdx in restart_attr:
                 if restart_attr[idx] == restart_attr[jdx]:
                     restart_graph.add_edge(idx, jdx)
